@@ -8,7 +8,7 @@ import sys
 ROOT = os.path.dirname(os.path.dirname(os.path.abspath(__file__)))
 sys.path.insert(0, os.path.join(ROOT, "lib"))
 from families import FAMILIES, FAMILY_OF, LEVEL_OF, MANIFEST as CHECKS, ENGINES  # noqa: E402
-from manifest_data import NOT_APPLICABLE_REASON  # noqa: E402
+from manifest_data import NOT_APPLICABLE_REASON, READY_FAMILIES  # noqa: E402
 
 props = [json.loads(l)["id"] for l in open(os.path.join(ROOT, "properties.jsonl"))]
 hooks = subprocess.run(["git", "-C", "/repo", "log", "--format=%H %s"], stdout=subprocess.PIPE, text=True).stdout
@@ -16,7 +16,7 @@ hook_commits = [l.split()[0] for l in hooks.splitlines() if "verif hook" in l]
 
 checks = []
 for p in props:
-    if p not in FAMILY_OF:
+    if p not in FAMILY_OF or FAMILY_OF[p] not in READY_FAMILIES:
         continue
     c = CHECKS[p]
     checks.append({
@@ -31,7 +31,7 @@ for p in props:
         "technique": c.get("technique", "TLA+ spec model-checked with TLC + conformance binding (replay / trace validation)"),
     })
 na = [{"property_id": p, "reason": NOT_APPLICABLE_REASON.get(p, "check not built yet in this round; planned per DESIGN.md §7")}
-      for p in props if p not in FAMILY_OF]
+      for p in props if p not in FAMILY_OF or FAMILY_OF[p] not in READY_FAMILIES]
 m = {
     "version": 1,
     "setup_cmd": "./setup.sh",
@@ -43,7 +43,7 @@ m = {
         "add_only": True,
     },
     "engines": [{"name": f, "path": "/verif/lib/fam_%s.py" % f, "serves_properties": ps,
-                 "kind_free_text": ENGINES.get(f, "")} for f, ps in FAMILIES.items()],
+                 "kind_free_text": ENGINES.get(f, "")} for f, ps in FAMILIES.items() if f in READY_FAMILIES],
     "checks": checks,
     "not_applicable": na,
     "notes": "Every check: TLA+ spec under /verif/spec model-checked by TLC + conformance binding to the real code "
